@@ -84,3 +84,31 @@ def digest(x):
 
 def is_error_cell(v):
   return isinstance(v, list) and len(v) >= 1 and v[0] == 'E'
+
+
+def cells_diff(a, b):
+  """Full difference of two snapshots: (structural, cells) where structural lists table / row-id /
+  column-set differences and cells lists (table, col, row, va, vb) for tables whose shape agrees."""
+  structural, cells = [], []
+  for t in sorted(set(a) | set(b)):
+    if t not in a or t not in b:
+      structural.append([t, 'table only in %s' % ('second' if t not in a else 'first')]); continue
+    ta, tb = a[t], b[t]
+    if ta.get('id') != tb.get('id'):
+      structural.append([t, 'row ids', ta.get('id'), tb.get('id')]); continue
+    for c in sorted(set(ta) | set(tb)):
+      if c == 'id':
+        continue
+      if c not in ta or c not in tb:
+        structural.append([t, c, 'column only in %s' % ('second' if c not in ta else 'first')]); continue
+      if ta[c] != tb[c]:
+        for r in ta['id']:
+          if ta[c].get(r) != tb[c].get(r):
+            cells.append((t, c, r, ta[c].get(r), tb[c].get(r)))
+  return structural, cells
+
+
+def rows_multiset(tview, ignore_cols=()):
+  """Rows of a table view as a sorted list of canonical strings, ignoring the row id."""
+  cols = sorted(c for c in tview if c != 'id' and c not in ignore_cols)
+  return sorted(jdump([tview[c].get(r) for c in cols]) for r in tview['id']), cols
